@@ -611,6 +611,7 @@ impl<R: DdsRuntime> DcpsParticipantFactory<R> {
                 publisher_handle,
                 data_writer_handle,
                 dynamic_data,
+                handle,
                 timestamp,
                 reply_sender,
             }) => match self
@@ -623,6 +624,7 @@ impl<R: DdsRuntime> DcpsParticipantFactory<R> {
                     &publisher_handle,
                     &data_writer_handle,
                     &dynamic_data,
+                    handle,
                     timestamp,
                     &self.runtime,
                 )),
@@ -642,6 +644,7 @@ impl<R: DdsRuntime> DcpsParticipantFactory<R> {
                 publisher_handle,
                 data_writer_handle,
                 dynamic_data,
+                handle,
                 timestamp,
                 reply_sender,
             }) => match self
@@ -654,6 +657,7 @@ impl<R: DdsRuntime> DcpsParticipantFactory<R> {
                     &publisher_handle,
                     &data_writer_handle,
                     &dynamic_data,
+                    handle,
                     timestamp,
                     &self.runtime,
                     reply_sender,
@@ -666,6 +670,7 @@ impl<R: DdsRuntime> DcpsParticipantFactory<R> {
                 publisher_handle,
                 data_writer_handle,
                 dynamic_data,
+                handle,
                 timestamp,
                 reply_sender,
             }) => match self
@@ -678,6 +683,7 @@ impl<R: DdsRuntime> DcpsParticipantFactory<R> {
                     &publisher_handle,
                     &data_writer_handle,
                     &dynamic_data,
+                    handle,
                     timestamp,
                     &self.runtime,
                 )),
